@@ -378,7 +378,7 @@ func (w *World) findReport(qid []byte, rep sdk.AccAddress) (oracletypes.MicroRep
 
 func (w *World) ProposeDispute(a *Actor, rep oracletypes.MicroReport, cat disputetypes.DisputeCategory, fee int64, fromBond bool, tag string) PhaseResult {
 	r := rep
-	return w.do("ProposeDispute", Rec{"backers": w.backersOf(rep), "who": a.Name, "rep": w.Name(rep.Reporter), "q": w.QN(rep.QueryId), "cat": int(cat), "fee": NumI64(fee), "bond": fromBond,
+	return w.do("ProposeDispute", Rec{"facts": w.evidenceFacts(rep), "backers": w.backersOf(rep), "who": a.Name, "rep": w.Name(rep.Reporter), "q": w.QN(rep.QueryId), "cat": int(cat), "fee": NumI64(fee), "bond": fromBond,
 		"rpower": NumU64(rep.Power), "rblock": int(rep.BlockNumber), "rvalue": rep.Value, "tag": tag},
 		&disputetypes.MsgProposeDispute{Creator: a.Addr.String(), Report: &r, DisputeCategory: cat, Fee: coin(fee), PayFromBond: fromBond})
 }
@@ -388,13 +388,40 @@ func (w *World) AddFee(a *Actor, id uint64, amt int64, fromBond bool) PhaseResul
 	if d, err := w.App.DisputeKeeper.Disputes.Get(w.Ctx, id); err == nil {
 		args["backers"] = w.backersOf(d.InitialEvidence)
 		args["rep"] = w.Name(d.InitialEvidence.Reporter)
+		args["facts"] = w.evidenceFacts(d.InitialEvidence)
+		args["q"] = w.QN(d.InitialEvidence.QueryId)
+		args["rblock"] = int(d.InitialEvidence.BlockNumber)
+		args["rpower"] = NumU64(d.InitialEvidence.Power)
+		args["cat"] = int(d.DisputeCategory)
 	}
 	return w.do("AddFeeToDispute", args,
 		&disputetypes.MsgAddFeeToDispute{Creator: a.Addr.String(), DisputeId: id, Amount: coin(amt), PayFromBond: fromBond})
 }
 
 func (w *World) Vote(a *Actor, id uint64, choice disputetypes.VoteEnum) PhaseResult {
-	return w.do("Vote", Rec{"who": a.Name, "id": int(id), "choice": int(choice)},
+	args := Rec{"who": a.Name, "id": int(id), "choice": int(choice), "bal": NumInt(w.Bal(a.Addr)), "isteam": false, "usertips": Num{}, "isrep": false, "reptok": Num{}, "issel": false, "seltok": Num{}, "selrep": "none"}
+	if p, err := w.App.DisputeKeeper.Params.Get(w.Ctx); err == nil && string(p.TeamAddress) == string(a.Addr.Bytes()) {
+		args["isteam"] = true
+	}
+	if d, err := w.App.DisputeKeeper.Disputes.Get(w.Ctx, id); err == nil {
+		if t, err := w.App.OracleKeeper.GetTipsAtBlockForTipper(w.Ctx, d.BlockNumber, a.Addr); err == nil {
+			args["usertips"] = NumInt(t)
+		}
+		if sel, err := w.App.ReporterKeeper.Selectors.Get(w.Ctx, a.Addr.Bytes()); err == nil {
+			args["issel"] = true
+			args["selrep"] = w.Name(sdk.AccAddress(sel.Reporter).String())
+			if string(sel.Reporter) == string(a.Addr.Bytes()) {
+				args["isrep"] = true
+				if t, err := w.App.ReporterKeeper.GetReporterTokensAtBlock(w.Ctx, a.Addr.Bytes(), d.BlockNumber); err == nil {
+					args["reptok"] = NumInt(t)
+				}
+			}
+			if t, err := w.App.ReporterKeeper.GetDelegatorTokensAtBlock(w.Ctx, a.Addr.Bytes(), d.BlockNumber); err == nil {
+				args["seltok"] = NumInt(t)
+			}
+		}
+	}
+	return w.do("Vote", args,
 		&disputetypes.MsgVote{Voter: a.Addr.String(), Id: id, Vote: choice})
 }
 
@@ -722,4 +749,34 @@ func (w *World) SignValset(v *Val) PhaseResult {
 	})
 	w.emit("SignValset", Rec{"val": v.Name, "cpts": NumU64(ts)}, r)
 	return r
+}
+
+// evidenceFacts projects, for a report named in a dispute message, what the chain's stores hold about it
+// BEFORE the message executes: whether a micro report with exactly these fields exists, the stake snapshot
+// recorded when it was made, and whether it determined an aggregate.
+func (w *World) evidenceFacts(rep oracletypes.MicroReport) Rec {
+	out := Rec{"genuine": false, "determined": false, "snap": Rec{"total": Signed{Mag: Num{}}, "origins": []Rec{}}, "hassnap": false}
+	ra, err := sdk.AccAddressFromBech32(rep.Reporter)
+	if err != nil {
+		return out
+	}
+	_ = w.App.OracleKeeper.Reports.Walk(w.Ctx, nil, func(k collectionsTriple, r oracletypes.MicroReport) (bool, error) {
+		if string(k.K1()) == string(rep.QueryId) && r.Reporter == rep.Reporter && r.BlockNumber == rep.BlockNumber && r.Value == rep.Value && r.Power == rep.Power &&
+			r.Timestamp.Equal(rep.Timestamp) && r.AggregateMethod == rep.AggregateMethod && r.QueryType == rep.QueryType && r.Cyclelist == rep.Cyclelist {
+			out["genuine"] = true
+		}
+		return false, nil
+	})
+	if da, err := w.App.ReporterKeeper.Report.Get(w.Ctx, collections.Join(rep.QueryId, collections.Join(ra.Bytes(), rep.BlockNumber))); err == nil {
+		out["snap"] = w.originsRec(da)
+		out["hassnap"] = true
+	}
+	_ = w.App.OracleKeeper.Aggregates.Walk(w.Ctx, nil, func(k collections.Pair[[]byte, uint64], a oracletypes.Aggregate) (bool, error) {
+		if string(k.K1()) == string(rep.QueryId) && a.MicroHeight == rep.BlockNumber && int(a.AggregateReportIndex) < len(a.Reporters) && a.Reporters[a.AggregateReportIndex].Reporter == rep.Reporter {
+			out["determined"] = true
+			out["aggts"] = NumU64(k.K2())
+		}
+		return false, nil
+	})
+	return out
 }
